@@ -16,6 +16,8 @@
 //	                       slices, maps, structs, closures, interfaces);
 //	                       impl-output `ok` / `err` (expect ∈ ok|err is echoed by the model).
 //	call <id> <fn> <expect> MsgCall of function <fn> of program <id>.
+//	run <id> <script> <expect> MsgRun of generated script <script> (values built in the caller's
+//	                       ephemeral realm and handed to program <id>: adoption of foreign-stamped objects).
 //
 // After EVERY op the oracle (c06env.CheckGraph) re-derives the statement from
 // the raw `oid:` keys of the base store; it shares nothing with the Lean model.
@@ -31,6 +33,14 @@ import (
 
 func verdict(e *c06env.Env, s *c06env.Snap) string {
 	if v := c06env.CheckGraph(s); v != "" {
+		if os.Getenv("C06_DEBUG") != "" {
+			os.Stderr.WriteString(v + "\n")
+			c06env.DebugDump(s, func(l string) {
+				if strings.Contains(l, v[len(v)-12:len(v)-6]) {
+					os.Stderr.WriteString(l + "\n")
+				}
+			})
+		}
 		return v
 	}
 	return "ok"
@@ -110,6 +120,11 @@ func exec(toks []string) (string, string) {
 			return "err:badop", "-"
 		}
 		return opCall(toks[1], toks[2], toks[3])
+	case "run":
+		if len(toks) != 4 {
+			return "err:badop", "-"
+		}
+		return opRun(toks[1], toks[2], toks[3])
 	}
 	return "err:badop", "-"
 }
